@@ -23,6 +23,9 @@ CHECKS = {
     "C07": ("exploration", "runtime monitoring: HMAC entry points (streaming, one-shot, digest, hex) in the C04 build variants under ASan+UBSan/MSan; hmac.new / RFC 2104 over the Python Streebog decide; key block freed after init (use-after-free monitor) and context non-interference monitor for pad wiping",
             "Held on the cases explored: all eight hash variants, key lengths 0..3 blocks (every length in thorough; every boundary and every 5th otherwise in quick), messages/chunkings from the C04 generator, context reuse with a second key; MAC, sizes and entry-point agreement checked against the reference; after final the HMAC context (incl. k_opad) must be identical for twin keys/messages.",
             "trusted: Python hashlib/hmac and oracles/streebog.py (RFC 7836 HMAC vectors in setup)", "DESIGN.md 4 C07"),
+    "C08": ("exploration", "runtime monitoring: ChaCha/HChaCha/XChaCha and GOST 28147-89 executed in gcc/clang x -O0..-O3 x {default, -fno-strict-aliasing} x {expanded, small tables} builds plus ASan+UBSan and MSan, exact-size buffers with alignment sweeps; from-scratch Python references decide every output and the counter",
+            "Held on the cases explored: rounds 8/12/20 x 128/256-bit keys, edge counters around 2^32 and 2^64, every length 0..320, every two-call split of lengths <= 192 plus random k-way splits (key-stream carry-over), all 8x8 source/destination alignments, NULL source, in-place; HChaCha/XChaCha edge keys and nonces; GOST: all built-in S-box sets plus random permutation boxes, LE/BE entry points, encrypt/decrypt/round trip at every alignment, MAC tag sizes over 0..8 blocks; every build must equal the reference (hence each other).",
+            "trusted: oracles/chacha.py (RFC 7539/8439, draft-strombergson, draft-irtf-cfrg-xchacha vectors in setup) and oracles/gost28147.py (GOST R 34.12-2015 A.2, GOST R 34.11-94 digests, BouncyCastle vectors; S-boxes parsed from the header's unexpanded tables); CryptoPro-B/C/D table contents are taken from the header; UBSan alignment reports inside the two headers are gating (the unchanged tree produces none); the header has six S-box sets, not seven", "DESIGN.md 4 C08"),
     "C10": ("exploration", "runtime monitoring: broadcast harness under ASan (stack-use-after-return on)+LSan and TSan; offline checker over callback intervals, call/return and completion records; send-failure positions enumerated",
             "Held on the executions explored: every flag subset of bsend_ex/cbsend x caller kind (external, pool thread, thread of a second pool) x pool sizes 1-16, never-started thread subsets, back-to-back synchronous broadcasts from one stack frame, send failure at each position 1..threads+1, perturbation at the decrement and hand-over points; counts, exactly-once, sync completion, completion-callback affinity and one-by-one non-overlap are checked on every history.",
             TP_NOTE, "DESIGN.md 4 C10"),
